@@ -53,9 +53,13 @@ const (
 	fBase = "layouts/base.vuego"
 	fRel  = "main.vuego" // a layout named "main" NEXT TO the page: wins over layouts/main.vuego when present
 	fLess = "vars.less"  // @import-ed by the LESS style block of page variant 10 (engine option procLess)
+	// fBadge: with Case.Comps the engines register the shorthand <badge> for it (WithComponents()
+	// scans components/ at construction, Vue.RegisterComponent names it): it is edited, never
+	// deleted or created (the set of shorthands is fixed at construction by design)
+	fBadge = "components/Badge.vuego"
 )
 
-var allFiles = []string{fPage, fComp, fMain, fBase, fRel, fLess}
+var allFiles = []string{fPage, fComp, fMain, fBase, fRel, fLess, fBadge}
 
 const (
 	eLoadRender = "load-render"  // root.Load(f).Fill(data).Render(ctx, w)
@@ -80,6 +84,7 @@ type variant struct {
 	Layout   string // "layout:" named by the front-matter: "", "main", "base"
 	Include  bool   // body includes comp.vuego
 	Less     bool   // body has a <style type="text/css+less"> block importing vars.less
+	Badge    bool   // body uses the component shorthand <badge label=...>
 	Long     bool   // a generated source of several KiB (kept out of the ordinary random choices: slow)
 }
 
@@ -156,6 +161,11 @@ var variants = map[string][]variant{
 		1: {Content: "@brand: blue;\n", LoadOK: true, RenderOK: true},
 		2: {Content: "@brand: #123456;\n@other: 1px;\n", LoadOK: true, RenderOK: true},
 	},
+	fBadge: {
+		0: {Content: `<b data-m="badge">[{{ label }}]</b>`, LoadOK: true, RenderOK: true},
+		1: {Content: "---\nmark: \"*\"\n---\n" + `<strong data-m="badge">{{ mark }}{{ label }}{{ mark }}</strong>`, LoadOK: true, RenderOK: true},
+		2: {Content: "---\nmark: [*\n---\n<b>bad2</b>"},
+	},
 	fBase: {
 		0: {Content: `<html><head><title>{{ title }}</title></head><body data-m="base">B0 <div v-html="content"></div></body></html>`, LoadOK: true, RenderOK: true},
 		1: {Content: `<html><body data-m="base"><header>B1 {{ title }}</header><div v-html="content"></div></body></html>`, LoadOK: true, RenderOK: true},
@@ -205,6 +215,9 @@ type Case struct {
 	Store string `json:"store,omitempty"`
 	// ZeroInit: the initial files report no modification time (zero time).
 	ZeroInit bool `json:"zero_init,omitempty"`
+	// Comps: the engines are built with component shorthands: vuego.NewFS(fs, WithComponents())
+	// and Vue.RegisterComponent("badge", "components/Badge.vuego").
+	Comps bool `json:"comps,omitempty"`
 }
 
 // toTime maps the model's mtime to the filesystem's: 0 is the zero time, not the Unix epoch.
@@ -339,6 +352,24 @@ func init() {
 	}
 }
 
+// Variants that use the component shorthand <badge>; appended after the generated long ones
+// so that saved replays keep their numbering.
+var pageBadge, pageBadgeMain, compBadge, mainBadge int
+
+func init() {
+	pageBadge = len(variants[fPage])
+	variants[fPage] = append(variants[fPage],
+		variant{Content: "---\ntitle: TB\n---\n" + `<div data-m="page">PB {{ title }} {{ x }}<badge label="new"></badge>` + inc + `</div>`, LoadOK: true, RenderOK: true, Include: true, Badge: true},
+		variant{Content: "---\ntitle: TBM\nlayout: main\n---\n" + `<div data-m="page">PBM {{ title }} {{ x }}<badge :label="title"></badge>` + inc + `</div>`, LoadOK: true, RenderOK: true, Layout: "main", Include: true, Badge: true})
+	pageBadgeMain = pageBadge + 1
+	compBadge = len(variants[fComp])
+	variants[fComp] = append(variants[fComp],
+		variant{Content: `<span data-m="comp">CB {{ title }} <badge label="c"></badge></span>`, LoadOK: true, RenderOK: true, Badge: true})
+	mainBadge = len(variants[fMain])
+	variants[fMain] = append(variants[fMain],
+		variant{Content: `<main data-m="main">MB {{ title }} <badge label="lay"></badge><div v-html="content"></div></main>`, LoadOK: true, RenderOK: true, Badge: true})
+}
+
 // index of the first generated long variant per file and size
 const (
 	pageLong5  = 17
@@ -383,6 +414,9 @@ func describeFiles(fs *memfs.FS, m *model) string {
 		}
 		fmt.Fprintf(&sb, "\n    %s (mtime %s%s): %q", n, fmtMt(m.st[n].mt), extra, clip(files[n]))
 	}
+	if m.store == storeOverlayZeroLower {
+		sb.WriteString("\n    (these are the upper layer of an overlay; the fallback layer holds variant 2 of page, component and main layout and reports NO mtime)")
+	}
 	if m.store == storeOverlayMixed {
 		sb.WriteString("\n    (these are the Open-only upper layer of an overlay; the lower layer holds variant 2 of page, component and main layout with mtime 50)")
 	}
@@ -403,12 +437,12 @@ func execute(c Case) (error, stats) {
 	for f, v := range c.Init {
 		fs.Write(f, variants[f][v].Content, toTime(m.st[f].mt))
 	}
-	lower := newLower()
+	lower := newLower(c.Store)
 	hook := &hookFS{m: fs}
 	// The long-lived engines.
 	long := mount(c.Store, hook, lower)
-	root := newRoot(long, c.Proc)
-	vue := newVue(long, c.Proc)
+	root := newRoot(long, c.Proc, c.Comps)
+	vue := newVue(long, c.Proc, c.Comps)
 	failedBefore := false
 
 	for i, op := range c.Ops {
@@ -497,9 +531,9 @@ func execute(c Case) (error, stats) {
 		var want string
 		var wantErr error
 		if viewIndex(op.Entry) == 1 {
-			want, wantErr = doRender(op.Entry, target, op.D, nil, newVue(snap, c.Proc))
+			want, wantErr = doRender(op.Entry, target, op.D, nil, newVue(snap, c.Proc, c.Comps))
 		} else {
-			want, wantErr = doRender(op.Entry, target, op.D, newRoot(snap, c.Proc), nil)
+			want, wantErr = doRender(op.Entry, target, op.D, newRoot(snap, c.Proc, c.Comps), nil)
 		}
 		modelOK := m.expectOK(op.Entry, target)
 		// (a processor that removes text can remove the failing expression: not counted)
@@ -644,6 +678,9 @@ func classify(c Case) (bool, []string) {
 	if s.staleRegion > 0 {
 		cls = append(cls, "asserted:old-mtime-back-after-engine-saw-other-state")
 	}
+	if c.Comps {
+		cls = append(cls, "engine:component-shorthands")
+	}
 	if c.Store == "" {
 		cls = append(cls, "store:plain")
 	} else {
@@ -771,6 +808,17 @@ var alphabetValues = []letter{
 	{op: "edit", file: fMain, dt: 1},
 }
 
+// alphabetComps: for enum-comps.
+var alphabetComps = []letter{
+	{op: "render", entry: eVueRender},
+	{op: "render", entry: eLoadRender},
+	{op: "render", entry: eVueFrag},
+	{op: "edit", file: fPage, dt: 1},
+	{op: "edit", file: fComp, dt: 1},
+	{op: "edit", file: fMain, dt: 1},
+	{op: "edit", file: fBadge, dt: 1},
+}
+
 // alphabetLong: for enum-long.
 var alphabetLong = []letter{
 	{op: "render", entry: eVueRender},
@@ -799,6 +847,7 @@ var enumBad = map[string]int{fPage: 5, fComp: 3, fMain: 3, fBase: 2}
 type engineOpt struct {
 	proc, store string
 	zeroInit    bool
+	comps       bool
 	pairs       map[string][]int // overrides enumPair: the cycle of contents a file goes through
 }
 
@@ -820,7 +869,7 @@ func nextOf(file string, curV map[string]int, pairs map[string][]int) int {
 }
 
 func buildHistory(alpha []letter, init map[string]int, word []int, o engineOpt) Case {
-	c := Case{Init: init, Proc: o.proc, Store: o.store, ZeroInit: o.zeroInit}
+	c := Case{Init: init, Proc: o.proc, Store: o.store, ZeroInit: o.zeroInit, Comps: o.comps}
 	curV := map[string]int{} // the content variant each file got last (so that every write changes it)
 	exists := map[string]bool{}
 	for f, v := range init {
@@ -928,8 +977,14 @@ func genCase(t *rapid.T) Case {
 	if rapid.Bool().Draw(t, "with-processor") {
 		c.Proc = rapid.SampledFrom(allProcs[1:]).Draw(t, "processor")
 	}
-	if rapid.IntRange(0, 3).Draw(t, "store") == 0 {
+	switch rapid.IntRange(0, 7).Draw(t, "store") {
+	case 0, 1:
 		c.Store = storeOverlayMixed
+	case 2:
+		c.Store = storeOverlayZeroLower
+	}
+	if c.Store == "" && rapid.IntRange(0, 3).Draw(t, "shorthands") == 0 {
+		c.Comps = true
 	}
 	if rapid.IntRange(0, 7).Draw(t, "no-mtimes-at-start") == 0 {
 		c.ZeroInit = true
@@ -955,6 +1010,12 @@ func genCase(t *rapid.T) Case {
 			c.Init[fLess] = pick("init-less-v", []int{0, 1, 2})
 		}
 	}
+	if c.Comps {
+		c.Init[fBadge] = pick("init-badge", []int{0, 1})
+		if rapid.Bool().Draw(t, "badge-page") {
+			c.Init[fPage] = pick("init-badge-page", []int{pageBadge, pageBadgeMain})
+		}
+	}
 	// one case in forty works on the generated long sources (5 / 20 / 70 KiB page, 6 KiB layout)
 	longFirst := -1
 	if c.Proc != procLess && rapid.IntRange(0, 39).Draw(t, "long-sources") == 0 {
@@ -977,6 +1038,12 @@ func genCase(t *rapid.T) Case {
 	if c.Proc == procLess {
 		fileW = []string{fPage, fPage, fComp, fMain, fLess, fLess, fLess, fLess, fLess}
 	}
+	if c.Comps {
+		fileW = append(fileW, fBadge)
+	}
+	// with shorthands registered, half of the edits of page / component / layout switch to or
+	// away from a version that uses <badge>
+	badgeV := map[string][]int{fPage: {pageBadge, pageBadgeMain}, fComp: {compBadge}, fMain: {mainBadge}}
 	// one write in eight leaves the file without an mtime (zero time)
 	zero := func() bool { return rapid.IntRange(0, 7).Draw(t, "no-mtime") == 0 }
 	dts := []int{1, 1, 1, 2, 0, 0, -1, -1, -2}
@@ -1043,6 +1110,12 @@ func genCase(t *rapid.T) Case {
 			if longFirst >= 0 && f == fMain {
 				good = []int{mainLong6, mainLong6 + 1, mainLong6 + 2, mainLong6 + 3}
 			}
+			if bv, ok := badgeV[f]; ok && c.Comps && longFirst < 0 && rapid.Bool().Draw(t, "to-badge") {
+				good = bv
+				if indexOfOrNeg(bv, cur[f]) >= 0 {
+					good = variantsWhere(f, true)
+				}
+			}
 			v := pick("v", good)
 			if !variants[f][v].RenderOK && rapid.Bool().Draw(t, "redraw") {
 				v = good[0] // contents whose evaluation fails are kept rarer
@@ -1060,6 +1133,9 @@ func genCase(t *rapid.T) Case {
 			c.Ops = append(c.Ops, Op{Op: "arm", File: f, V: v, Dt: rapid.SampledFrom([]int{1, 1, 2, 0, -1}).Draw(t, "dt"), Ns: subsec(), Z: zero()})
 		case "block":
 			f := rapid.SampledFrom(fileW).Draw(t, "file")
+			if f == fBadge {
+				f = fPage // the shorthand's component file is only edited (see fBadge)
+			}
 			blocked[f] = true
 			c.Ops = append(c.Ops, Op{Op: "block", File: f})
 		case "unblock":
@@ -1081,6 +1157,9 @@ func genCase(t *rapid.T) Case {
 			c.Ops = append(c.Ops, Op{Op: "invalid", File: f, V: v, Dt: rapid.SampledFrom(dts).Draw(t, "dt"), Ns: subsec(), Z: zero()})
 		default:
 			f := rapid.SampledFrom(fileW).Draw(t, "file")
+			if f == fBadge {
+				f = fPage // the shorthand's component file is only edited (see fBadge)
+			}
 			cur[f] = -1
 			c.Ops = append(c.Ops, Op{Op: "delete", File: f})
 		}
@@ -1092,6 +1171,15 @@ func genCase(t *rapid.T) Case {
 		rec.Excluded(id)
 	}
 	return c2
+}
+
+func indexOfOrNeg(xs []int, x int) int {
+	for i, y := range xs {
+		if y == x {
+			return i
+		}
+	}
+	return -1
 }
 
 func indexOf(xs []int, x int) int {
@@ -1127,7 +1215,11 @@ func TestProp(t *testing.T) {
 	// without mtime, page-relative layout appearing / disappearing), on the plain filesystem,
 	// on the mixed-capability overlay, and starting from files that report no mtime
 	enumerate(t, "enum-fs", alphabetFS, stdInits, run.Pick([]int{3, 2}, []int{4, 3}),
-		[]engineOpt{{}, {store: storeOverlayMixed}, {zeroInit: true}})
+		[]engineOpt{{}, {store: storeOverlayMixed}, {zeroInit: true}, {store: storeOverlayZeroLower}})
+	// engines with component shorthands: edits add and remove <badge> in page, layout and
+	// component, and edit the shorthand's component file
+	enumerate(t, "enum-comps", alphabetComps, []map[string]int{{fPage: 1, fComp: 0, fMain: 0, fBadge: 0}}, run.Pick([]int{3}, []int{5}),
+		[]engineOpt{{comps: true, pairs: map[string][]int{fPage: {pageBadgeMain, 1, pageBadge}, fComp: {compBadge, 0}, fMain: {mainBadge, 0}, fBadge: {1, 0}}}})
 	// values: typed front-matter read type-sensitively (page 13, layout 5), and versions of page
 	// and component that differ only in blanks inside string literals (14/15, 5/6)
 	enumerate(t, "enum-values", alphabetValues, []map[string]int{{fPage: 13, fComp: 5, fMain: 5}, {fPage: 14, fComp: 5, fMain: 0}},
